@@ -48,6 +48,22 @@ def ReplyFresh (s : St α) : Prop := ∀ p ∈ s.delivered, p.1 ∈ s.wireOut
 def NoParking (tbl : List (α × α)) (s : St α) : Prop :=
   ∀ e ∈ s.pending, s.closing = true ∨ hasKey s.active (reqKey tbl e.req) = true
 
+/-- where the client still knows a request: queued, taken by the tx thread, parked, filed, popped by the rx thread
+(about to be delivered / about to be requeued), taken by a `disconnect` — or its caller is done with it: answered,
+released, timed out -/
+def whereabouts (s : St α) : List Nat :=
+  s.txq.map (·.id) ++ (s.txHold.toList.map (·.id) ++ (s.pending.map (·.id) ++ (s.active.map (·.2.id)
+    ++ (s.rxSet.toList.map (·.1.id) ++ (s.rxHold.map (·.id) ++ (s.relHold.map (·.id)
+    ++ (s.delivered.map (·.1.id) ++ (s.released ++ s.timedOut))))))))
+
+/-- no request is lost: every request a caller has queued is still somewhere in the client's machinery, or its caller
+has got a reply, was released, or ran into its time-out.  (A caller whose request is in none of these places can only
+end by time-out, whatever the peer answers.) -/
+def NoLostRequest (s : St α) : Prop := ∀ i, i < s.nextId → i ∈ whereabouts s
+
+instance (s : St α) : Decidable (NoLostRequest s) := by
+  unfold NoLostRequest; exact Nat.decidableBallLT _ _
+
 instance (tbl : List (α × α)) (s : St α) : Decidable (ReplyMatches tbl s) := by unfold ReplyMatches; exact inferInstance
 instance (tbl : List (α × α)) (s : St α) : Decidable (ReplyMatchesKnown tbl s) := by
   unfold ReplyMatchesKnown; exact inferInstance
@@ -75,6 +91,16 @@ theorem noDoubleDeliveryB_iff (s : St α) : noDoubleDeliveryB s = true ↔ NoDou
   simp [noDoubleDeliveryB]
 theorem noParkingB_iff (tbl : List (α × α)) (s : St α) : noParkingB tbl s = true ↔ NoParking tbl s := by
   simp [noParkingB]
+
+def noLostB (s : St α) : Bool := decide (NoLostRequest s)
+
+omit [DecidableEq α] in
+theorem noLostB_iff (s : St α) : noLostB s = true ↔ NoLostRequest s := by simp [noLostB]
+
+/-- index of the first state of an observed run in which a request is lost -/
+def firstLost : List (St α) → Nat → Option Nat
+  | [], _ => none
+  | s :: rest, i => if noLostB s then firstLost rest (i + 1) else some i
 
 /-- index of the first state of an observed run in which a request is parked with its key free -/
 def firstParked (tbl : List (α × α)) : List (St α) → Nat → Option Nat
